@@ -99,7 +99,7 @@ def root_oracle(variant, c, T):
         if rv < 0:
             continue
         # (for the cosh variants this classification is proved: c15_cosh_no_solution_first_half / _second_half,
-        #  c15_cosh_ratio_mid, c15_sinh_ratio_mid in PV/Props/C15Alg.lean; the sinh limit a/b is measured only)
+        #  c15_cosh_ratio_mid, c15_sinh_ratio_mid, c15_sinh_no_solution in PV/Props/C15Alg.lean)
         # does g(m a) / g(m b) = rv have a real solution m != 0 ?  (a = t - T/2, b = a + 1; the ratio is monotone in m > 0,
         # from its m -> 0 limit `lim` to infinity (|a| > |b|) or to 0 (|a| < |b|); for |a| = |b| it does not depend on m)
         a_, b_ = t - T / 2, t + 1 - T / 2
